@@ -17,8 +17,6 @@ package agent
 //   C17 only a link is closed while stage-2 tunnels are live; then everything must drain to zero
 
 import (
-	"context"
-	"encoding/binary"
 	"fmt"
 	"io"
 	"net"
@@ -31,77 +29,6 @@ import (
 	"github.com/postalsys/muti-metroo/internal/identity"
 	"github.com/postalsys/muti-metroo/internal/verifkit"
 )
-
-type mkHeld struct {
-	plan mkTunnelPlan
-	conn net.Conn
-	off  int64
-}
-
-// mkOpenHeld opens a tunnel, sends the header and the first bytes, reads (and verifies) the
-// whole server->client stream and then keeps the tunnel open.
-func mkOpenHeld(m *mkMesh, p mkTunnelPlan) (*mkHeld, error) {
-	ctx, cancel := context.WithTimeout(context.Background(), 15*time.Second)
-	defer cancel()
-	conn, err := m.nodes[p.Ingress].a.DialContext(ctx, "tcp", p.Dest)
-	if err != nil {
-		return nil, err
-	}
-	if _, ok := conn.(*meshConn); !ok {
-		conn.Close()
-		return nil, fmt.Errorf("held tunnel did not go through the mesh")
-	}
-	hdr := make([]byte, mkHdrLen)
-	copy(hdr, mkMagic)
-	binary.BigEndian.PutUint64(hdr[8:], p.ID)
-	binary.BigEndian.PutUint64(hdr[16:], uint64(p.C2S))
-	binary.BigEndian.PutUint64(hdr[24:], uint64(p.S2C))
-	hdr[32] = byte(mkModeOrderly)
-	conn.SetDeadline(time.Now().Add(15 * time.Second))
-	first := make([]byte, 300)
-	mkGen(p.ID, 0, 0, first)
-	if _, err := conn.Write(append(hdr, first...)); err != nil {
-		conn.Close()
-		return nil, err
-	}
-	v := newMkVerifier(p.ID, 1)
-	buf := make([]byte, 4096)
-	for v.n < p.S2C {
-		n, err := conn.Read(buf)
-		if n > 0 {
-			v.feed(buf[:n])
-		}
-		if err != nil {
-			conn.Close()
-			return nil, fmt.Errorf("held tunnel read: %w", err)
-		}
-	}
-	if v.badAt >= 0 {
-		conn.Close()
-		return nil, fmt.Errorf("held tunnel got wrong bytes at %d", v.badAt)
-	}
-	conn.SetDeadline(time.Time{})
-	return &mkHeld{plan: p, conn: conn, off: int64(len(first))}, nil
-}
-
-// poke writes n more bytes of the tunnel's client->server stream (bounded; errors are expected
-// once the tunnel is dead and are not judged).
-func (h *mkHeld) poke(n int) {
-	buf := make([]byte, n)
-	mkGen(h.plan.ID, 0, h.off, buf)
-	h.conn.SetWriteDeadline(time.Now().Add(2 * time.Second))
-	w, _ := h.conn.Write(buf)
-	h.off += int64(w)
-}
-
-func (h *mkHeld) close() {
-	done := make(chan struct{})
-	go func() { h.conn.Close(); close(done) }()
-	select {
-	case <-done:
-	case <-time.After(5 * time.Second):
-	}
-}
 
 // mkReuseAtEndpoint: tunnels whose stream id on some hop (sender, receiver, id) is also used by
 // another tunnel on the same hop — possible only on two successive connections between the two
